@@ -200,6 +200,29 @@ func declOptsCase(c *Ctx, seq []string) {
 			return
 		}
 	}
+	// declaring a taken name panics at any time, also after the application has been run
+	{
+		app3 := cli.App("app", "")
+		app3.ErrorHandling = flag.ContinueOnError
+		for _, d := range seq {
+			app3.BoolOpt(d, false, "")
+		}
+		app3.Action = func() {}
+		sharedBuf.Reset()
+		runDirect(&sharedBuf, func() error { return app3.Run([]string{"app"}) })
+		for _, d := range []string{seq[0], strings.Fields(seq[len(seq)-1])[0]} {
+			panicked := false
+			func() {
+				defer func() { panicked = recover() != nil }()
+				app3.StringOpt(d, "", "")
+			}()
+			c.Count("redeclarations_after_run", 1)
+			if !panicked {
+				c.Violation("C18", key+fmt.Sprintf(" then Run, then option %q", d), cs(), "declaring an option whose name is already taken panics (also after a Run)", "no panic")
+				return
+			}
+		}
+	}
 	if len(seq) >= 2 && c.WantSample("options") {
 		c.Sample("options", Case{"declarations": seq, "panics_at": wantPanic})
 	}
@@ -273,6 +296,14 @@ func declArgsCase(c *Ctx, seq []string) {
 	want := strings.Join(argv[1:], " ")
 	if !(o.Returned && o.Err == nil && ran == 1 && strings.Join(got, " ") == want) {
 		c.Violation("C18", key+" (binding)", cs(), "each argument holds its own token: "+want, fmt.Sprintf("err=%v ran=%d got=%q panic=%v", o.Err, ran, got, safeSprint(o.PanicVal)))
+	}
+	panicked := false
+	func() {
+		defer func() { panicked = recover() != nil }()
+		app.StringArg(seq[0], "", "")
+	}()
+	if !panicked {
+		c.Violation("C18", key+fmt.Sprintf(" then Run, then argument %q", seq[0]), cs(), "declaring an argument whose name is already taken panics (also after a Run)", "no panic")
 	}
 	if len(seq) >= 2 && c.WantSample("arguments") {
 		c.Sample("arguments", Case{"declarations": seq, "panics_at": wantPanic})
